@@ -202,6 +202,11 @@ func GetInstantiatedStructType(s *GenericStructType, genericTypes []Type) *Struc
 
 	for _, instantiation := range s.Instantiations {
 		if slices.EqualFunc(instantiation.instantiatedWith, genericTypes, Equal) {
+			// a field of this instantiation refers to the instantiation itself
+			// such a type would have to contain itself and can not exist
+			if instantiation.instantiating {
+				return nil
+			}
 			return instantiation
 		}
 	}
@@ -223,12 +228,22 @@ func GetInstantiatedStructType(s *GenericStructType, genericTypes []Type) *Struc
 		genericTypesMap[generic.Name] = genericTypes[i]
 	}
 
+	// register the instantiation before its fields are instantiated and mark it as unfinished
+	// if a field refers to this very instantiation again (directly or through equally named type parameters)
+	// it is found above and the instantiation fails instead of recursing forever
+	result.instantiating = true
+	s.Instantiations = append(s.Instantiations, &result)
+
 	for i, field := range s.StructType.Fields {
 		result.Fields[i].Name = field.Name
 		result.Fields[i].Type = GetInstantiatedType(s.StructType.Fields[i].Type, genericTypesMap)
+		if result.Fields[i].Type == nil {
+			// the field can not be instantiated, so neither can the struct
+			s.Instantiations = slices.DeleteFunc(s.Instantiations, func(t *StructType) bool { return t == &result })
+			return nil
+		}
 	}
-
-	s.Instantiations = append(s.Instantiations, &result)
+	result.instantiating = false
 
 	return &result
 }
